@@ -38,7 +38,7 @@ func checkGenuine(cs *mon.Case, w *World, g *Genuine) (string, string) {
 		// a trailing comment sized so that the message is exactly 8 (16, 32) times as long as its DEFLATE stream
 		m := []int{8, 16, 32}[(cs.Index/40)%3]
 		n := len(xml) + 64
-		for it := 0; it < 200; it++ {
+		for it := 0; it < 200 && n < 1<<20; it++ { // stays far below the decompression limit: the message must remain acceptable
 			padded := xml + "<!--" + strings.Repeat("p", n-len(xml)-7) + "-->"
 			comp := sim.Deflate([]byte(padded), 6)
 			if len(padded) == m*len(comp) {
